@@ -626,6 +626,7 @@ impl Server {
         let mut should_close = false;
         let mut timeout_check = false;
         let mut conn_closed = false;
+        let mut protocol_error: Option<String> = None;
         
         // First phase: read and parse with the lock
         let read_result = self.connections.with_connection(id, |conn| -> Result<()> {
@@ -676,9 +677,11 @@ impl Server {
                                         return Err(e);
                                     },
                                     _ => {
-                                        // Other parsing errors - log but don't immediately close connection
-                                        // This improves tolerance for pipelining edge cases
-                                        eprintln!("Parse warning for connection {}: {}", id, e);
+                                        // A frame that violates the protocol can never be parsed, and the
+                                        // bytes would wedge the connection in silence. The frames parsed before
+                                        // it are answered first, then an error is sent and the connection closed.
+                                        eprintln!("Protocol error on connection {}: {}", id, e);
+                                        protocol_error = Some(e.to_string());
                                         break;
                                     }
                                 }
@@ -859,6 +862,13 @@ impl Server {
             
             // Handle QUIT command
             if should_close {
+                conn.state = ConnectionState::Closing;
+            }
+            
+            // Protocol violation: answer with an error instead of silence, then close
+            if let Some(msg) = protocol_error.take() {
+                let _ = conn.send_frame(&RespFrame::error(format!("ERR {}", msg)));
+                let _ = conn.flush();
                 conn.state = ConnectionState::Closing;
             }
             
